@@ -1,8 +1,13 @@
 #!/bin/sh
-# Build the framework from files on disk only (offline).
+# Build the framework from files on disk only (offline): the Rust harness against /repo, the Lean
+# model driver, and the theorem modules of every claimed property.
 set -e
 cd "$(dirname "$0")"
 export CARGO_NET_OFFLINE=true
 (cd harness && cargo build --offline 2>&1 | tail -3)
-(cd lean && lake build 2>&1 | tail -5)
+MODS=$(python3 -c "
+import sys; sys.path.insert(0,'.')
+from checkcfg import PROPS
+print(' '.join(sorted({'Proofs.'+m for p in PROPS.values() for m in p['proof_modules']})))")
+(cd lean && python3 gen_registry.py && lake build driver $MODS 2>&1 | tail -5)
 echo setup-done
